@@ -285,7 +285,18 @@ func (c06) Run(t *tape.Tape, tier Tier) *Result {
 				plain := obs.Fmt(verb, e)
 				stripped := obs.S(func() string { return redact.RedactableString(r).StripMarkers() })
 				if stripped != plain && !obs.IsPanic(plain) {
-					res.add(Violation{Prop: "C06", Oracle: "congruent:" + verb, Culprit: firstDiffLine(plain, stripped), Expected: short(fmt.Sprintf("%q", plain)), Observed: short(fmt.Sprintf("%q", stripped)), Where: where})
+					// report every differing line pair (so that a recorded finding
+					// is recognised line by line, not on a truncated rendering)
+					pl, sl := strings.Split(plain, "\n"), strings.Split(stripped, "\n")
+					if len(pl) != len(sl) {
+						res.add(Violation{Prop: "C06", Oracle: "congruent:" + verb, Culprit: "line-count", Expected: short(fmt.Sprintf("%q", plain)), Observed: short(fmt.Sprintf("%q", stripped)), Where: where})
+					} else {
+						for li := range pl {
+							if pl[li] != sl[li] {
+								res.add(Violation{Prop: "C06", Oracle: "congruent:" + verb, Culprit: "line", Expected: fmt.Sprintf("%q", pl[li]), Observed: fmt.Sprintf("%q", sl[li]), Where: fmt.Sprintf("%s, line %d", where, li+1)})
+							}
+						}
+					}
 				}
 			}
 		}
